@@ -47,6 +47,10 @@ type loopInfo struct {
 	kindSet map[string]bool
 	rangePhi *ssa.Phi
 	rangeN   string
+	rangeC   int64
+	rangePlus bool
+	rangeTried bool
+	autoDecr bool
 	decrAt  []string // variant terms at head
 }
 
